@@ -61,7 +61,8 @@ class ParsedHeaders(Mapping[bytes, Sequence[BaseHeader]]):
             hdr_tuple = SMTP.header_source_parse(lines)
             try:
                 yield cls._registry(hdr_tuple[0], hdr_tuple[1])
-            except (ValueError, IndexError, AttributeError):
+            except (ValueError, IndexError, AttributeError,
+                    RecursionError):
                 # the value cannot be parsed as this kind of header: it has
                 # no structured form
                 pass
